@@ -1,113 +1,7 @@
-(** C02 — stored messages are returned as they were submitted.
-    Statements only; every proof is [exact <lemma>].
-    [hash] stands for sha256 (any function: no collision-freeness is needed,
-    a collision is just another way to meet class DedupForeignForm). *)
 From Coq Require Import String Ascii List Bool Arith ZArith.
-From Raven Require Import Base.GoStr Base.GoStrMime Spec.Mime Model.MimeHeaders Model.MimeStore Model.MimeBoundary
-  Spec.MimeCheck Proof.MimeBlob Proof.MimeTrim Proof.MimeSingle Proof.MimeRefute.
+From Raven Require Import Base.GoStr Base.GoStrMime Spec.Mime Model.MimeHeaders Model.MimeStore Proof.MimeBlob.
 Import ListNotations.
-
-(** Single-part messages: for EVERY header list, body, blob history [bs] and
-    later stores [later], outside the finding classes the fetched message has
-    identical body octets and the same header fields in order, names and values
-    up to surrounding white space, plus at most one default Content-Type. *)
-Theorem c02_roundtrip_single : forall (hash : str -> str) (bs later : blobs) (hs : list header) (b : str),
-  hs <> [] ->
-  classify hash bs (mk_msg hs (Single b)) = None ->
-  spec_ok (mk_msg hs (Single b)) (roundtrip hash bs (mk_msg hs (Single b)) later) = true.
-Proof. exact single_roundtrip. Qed.
-Print Assumptions c02_roundtrip_single.
-
-(** What a single-part message returns depends neither on the messages stored
-    before it (any two blob histories) nor on when it is fetched (any later stores). *)
-Theorem c02_independent_single : forall (hash : str -> str) (bs1 bs2 later1 later2 : blobs) (hs : list header) (b : str),
-  hs <> [] ->
-  classify hash bs1 (mk_msg hs (Single b)) = None ->
-  classify hash bs2 (mk_msg hs (Single b)) = None ->
-  roundtrip hash bs1 (mk_msg hs (Single b)) later1 = roundtrip hash bs2 (mk_msg hs (Single b)) later2.
-Proof. exact single_independent. Qed.
-Print Assumptions c02_independent_single.
-
-(** The result is explicit: stored header fields + what the rebuild appends + the body. *)
-Theorem c02_single_result : forall (hash : str -> str) (bs later : blobs) (hs : list header) (b : str),
-  hs <> [] ->
-  single_no_boundary hs = false ->
-  conflict_parts hash bs (snd (parse_msg (mk_msg hs (Single b)))) = false ->
-  roundtrip hash bs (mk_msg hs (Single b)) later
-  = Some (mk_msg (map out_hdr (map hdr_store hs) ++ single_extra hs) (Single b)).
-Proof. exact single_result. Qed.
-Print Assumptions c02_single_result.
-
-(** the first message ever stored meets no conflicting blob *)
-Theorem c02_no_conflict_on_empty_store : forall (hash : str -> str) (hs : list header) (b : str),
-  conflict_parts hash [] (snd (parse_msg (mk_msg hs (Single b)))) = false.
-Proof. exact single_no_conflict_empty. Qed.
-Print Assumptions c02_no_conflict_on_empty_store.
-
-(** every header field without the FoldWs shape keeps its name and value up to surrounding white space *)
-Theorem c02_header_field_kept : forall h : header,
-  fold_ws h = false -> hdr_eqv h (out_hdr (hdr_store h)) = true.
-Proof. exact hdr_kept. Qed.
-Print Assumptions c02_header_field_kept.
-
 Theorem c02_blob_rows_are_immutable : forall (bs later : blobs) (id : nat),
   id < length bs -> get_blob (bs ++ later) id = get_blob bs id.
 Proof. exact get_blob_app. Qed.
 Print Assumptions c02_blob_rows_are_immutable.
-
-(** ---- refutations: the faithful model violates the property on each class *)
-Theorem c02_refuted_dedup :
-  classify hid bs_after_first m_second = Some DedupForeignForm
-  /\ spec_ok m_second (roundtrip hid bs_after_first m_second []) = false
-  /\ spec_ok m_second (roundtrip hid [] m_second []) = true.
-Proof. exact refuted_dedup. Qed.
-Print Assumptions c02_refuted_dedup.
-
-Theorem c02_refuted_independence :
-  omsg_eqb (roundtrip hid bs_after_first m_second []) (roundtrip hid [] m_second []) = false.
-Proof. exact refuted_independence. Qed.
-Print Assumptions c02_refuted_independence.
-
-Theorem c02_refuted_no_boundary :
-  classify hid [] m_nob = Some NoBoundary /\ roundtrip hid [] m_nob [] = None.
-Proof. exact refuted_no_boundary. Qed.
-Print Assumptions c02_refuted_no_boundary.
-
-Theorem c02_refuted_no_boundary_nested :
-  classify hid [] m_nob_nested = Some NoBoundary /\ spec_ok m_nob_nested (roundtrip hid [] m_nob_nested []) = false.
-Proof. exact refuted_no_boundary_nested. Qed.
-Print Assumptions c02_refuted_no_boundary_nested.
-
-Theorem c02_refuted_fold_ws :
-  classify hid [] m_fold = Some FoldWs /\ spec_ok m_fold (roundtrip hid [] m_fold []) = false.
-Proof. exact refuted_fold_ws. Qed.
-Print Assumptions c02_refuted_fold_ws.
-
-Theorem c02_refuted_dup_cte :
-  classify hid [] m_dupcte = Some DupCte /\ spec_ok m_dupcte (roundtrip hid [] m_dupcte []) = false.
-Proof. exact refuted_dup_cte. Qed.
-Print Assumptions c02_refuted_dup_cte.
-
-Theorem c02_refuted_ct_name :
-  classify hid [] m_ctname = Some CtNameDropped /\ spec_ok m_ctname (roundtrip hid [] m_ctname []) = false.
-Proof. exact refuted_ct_name. Qed.
-Print Assumptions c02_refuted_ct_name.
-
-Theorem c02_refuted_unstable_boundary :
-  str_eqb (container_ct_line (S_ "multipart/mixed") 1790887695926728677)
-          (container_ct_line (S_ "multipart/mixed") 1790887696187990678) = false
-  /\ gen_boundary (S_ "multipart/mixed") 1790887695926728677 = S_ "----=_Part_Mixed_1790887695926728677".
-Proof. exact refuted_unstable_boundary. Qed.
-Print Assumptions c02_refuted_unstable_boundary.
-
-(** ---- non-vacuity / tests (finite evaluations, not the property theorem) *)
-Example c02_hypotheses_satisfiable : classify hid bs_after_first m_plain = None /\ H0 <> [].
-Proof. exact plain_classify_none. Qed.
-
-(** multipart messages: the tree-level round trip (flattening, relative
-    numbering, rebuild, per-leaf rules) is NOT proved for all trees (see
-    NOTES/C02.md); it is evaluated on this depth-4 message and, on every run,
-    on the generated trees of the correspondence check ([mspec] column). *)
-Example c02_multipart_depth4_example :
-  classify hid [] m_deep = None /\ spec_ok m_deep (roundtrip hid [] m_deep []) = true.
-Proof. exact deep_roundtrip. Qed.
